@@ -79,6 +79,13 @@ func (e *Engine) initExterns() {
 		}
 		return c.freshValue(rt, "noop")
 	})
+	// the process ends: no execution continues after the call
+	for _, name := range []string{"os.Exit", "log.Fatal", "log.Fatalf", "log.Fatalln", "runtime.Goexit"} {
+		reg(name, "does not return", func(c *FnCtx, st *State, args []SV, rt types.Type) SV {
+			st.pc = TFalse
+			return nil
+		})
+	}
 	reg("fmt.Errorf", "returns a non-nil error", func(c *FnCtx, st *State, args []SV, rt types.Type) SV {
 		c.trusted["fmt.Errorf / errors.New return a non-nil error"] = true
 		return nonNilError(c, "Errorf")
